@@ -430,7 +430,10 @@ pub(crate) fn add_str_format<W, R, T>(
                 .fill_specs
                 .map(|f| f.fillers(s0.len()))
                 .unwrap_or_default();
-            assert!(infix.is_empty());
+            if !infix.is_empty() {
+                // zero padding without an alignment pads after the sign
+                return xerr(ManagedXError::new("str cannot be formatted with sign-sensitivity", rt)?);
+            }
             let ret = XValue::String(Box::new(FencedString::from_string(format!(
                 "{prefix}{s0}{postfix}"
             ))));
